@@ -23,10 +23,13 @@ for sid in sorted(res):
             cells.append(f"{pid}: {c['exit']}" + (" undecided" if c["exit"] == 2 else " not caught" if c["exit"] == 0 else ""))
     if not caught:
         missed.append(sid)
-    rows.append(f"| {sid} | {','.join(meta['breaks'])} | {meta['change'][:110]} | {'; '.join(cells)} |")
+    old = " †" if str(r.get("run", "")).startswith("round-4") else ""
+    rows.append(f"| {sid}{old} | {','.join(meta['breaks'])} | {meta['change'][:110]} | {'; '.join(cells)} |")
 n = len(res)
 summary = f"\n{n - len(missed)} of {n} seeded changes are reported as violations by at least one of the checks run on them" + \
-          (f"; not caught: {', '.join(missed)}" if missed else "") + ".\n"
+          (f"; not caught: {', '.join(missed)}" if missed else "") + ".\n" + \
+          "† result of the round-4 run: these seeds were not run again after the coverage-extension phase for lack of time (the C13-C16 checks take minutes " \
+          "each); the contracts they are caught by were not weakened since.  All other rows were (re-)run on the final contracts of this phase.\n"
 p = os.path.join(ROOT, "DESIGN.md")
 s = open(p).read()
 a, b = s.index("<!-- SEED-TABLE-BEGIN -->"), s.index("<!-- SEED-TABLE-END -->")
